@@ -106,12 +106,51 @@ let rec prog (c : cx) : string =
   | CIfDerivOf (c, arg, a, b) -> "(ifderivof " ^ prog c ^ " " ^ leaf arg ^ " " ^ prog a ^ " " ^ prog b ^ ")"
   | CErr k -> "(err " ^ dec_of_n k ^ ")"
 
+(* ---------- polynomial classes:  P <kind> <vars> <wrt> <terms>  (see harness/c10_driver.cpp) ---------- *)
+let split_list c s = if s = "-" || s = "" then [] else String.split_on_char c s
+let join sep l = if l = [] then "-" else String.concat sep l
+let rec nat_of_int k = if k <= 0 then O else S (nat_of_int (k - 1))
+let index_of x l = let rec go i = function [] -> None | y :: r -> if x = y then Some i else go (i + 1) r in go 0 l
+let kc_of t = match String.index_opt t ':' with
+  | Some i -> (String.sub t 0 i, String.sub t (i + 1) (String.length t - i - 1))
+  | None -> failwith "term"
+let qstr (n, d) = let ds = dec_of_z (Zpos d) in if ds = "1" then dec_of_z n else dec_of_z n ^ "/" ^ ds
+let q_of s = match String.index_opt s '/' with
+  | Some i -> (z_of_dec (String.sub s 0 i), pos_of_dec (String.sub s (i + 1) (String.length s - i - 1)))
+  | None -> (z_of_dec s, XH)
+(* exponents are sorted numerically by the driver's std::map; decimal strings compared by (length, text) *)
+let cmp_dec a b = compare (String.length a, a) (String.length b, b)
+
+let poly_line kind vars wrt terms =
+  match kind with
+  | "uint" ->
+      let p = List.map (fun t -> let (k, c) = kc_of t in (n_of_dec k, z_of_dec c)) (split_list ',' terms) in
+      let r = diff_upoly (vars = wrt) p in
+      let ts = List.sort (fun (a, _) (b, _) -> cmp_dec a b) (List.map (fun (k, c) -> (dec_of_n k, dec_of_z c)) r) in
+      "UIntPoly " ^ vars ^ " " ^ join "," (List.map (fun (k, c) -> k ^ ":" ^ c) ts)
+  | "urat" ->
+      let p = List.map (fun t -> let (k, c) = kc_of t in
+                                 let (n, d) = q_of c in (n_of_dec k, qnorm n d)) (split_list ',' terms) in
+      let r = diff_uratpoly (vars = wrt) p in
+      let ts = List.sort (fun (a, _) (b, _) -> cmp_dec a b) (List.map (fun (k, c) -> (dec_of_n k, qstr c)) r) in
+      "URatPoly " ^ vars ^ " " ^ join "," (List.map (fun (k, c) -> k ^ ":" ^ c) ts)
+  | "mint" ->
+      let names = split_list ',' vars in
+      let p = List.map (fun t -> let (k, c) = kc_of t in
+                                 (List.map n_of_dec (String.split_on_char '.' k), z_of_dec c)) (split_list ';' terms) in
+      let idx = match index_of wrt names with Some i -> Some (nat_of_int i) | None -> None in
+      let r = diff_mpoly idx p in
+      let ts = List.sort compare (List.map (fun (v, c) -> String.concat "." (List.map dec_of_n v) ^ ":" ^ dec_of_z c) r) in
+      "MIntPoly " ^ join "," (List.sort compare names) ^ " " ^ join ";" ts
+  | _ -> "UNSUPPORTED poly kind"
+
 let () =
   try
     while true do
       let line = input_line stdin in
       (try
         match String.split_on_char '\t' line with
+        | "P" :: kind :: vars :: wrt :: terms :: _ -> print_endline (poly_line kind vars wrt terms)
         | dx :: de :: _ ->
             let x = expr_of_string (String.trim dx) in
             let e = expr_of_string (String.trim de) in
